@@ -183,8 +183,14 @@ func c03Pratt(c *Ctx, r *Result, gr *Grammar, M, A, C, N int64) {
 		}
 		found = true
 		pos := c.Pos(c.InstrPos(ifi))
-		cont := b.Succs[0] // successor taken when the condition holds
-		inLoopBody := blockReach(cont, true)[b]
+		// the relation that holds on the edge that stays in the loop (the test may be written as the
+		// loop condition, or inverted as `if binding <= rightBinding { break }`)
+		contTrue := blockReach(b.Succs[0], true)[b]
+		contFalse := blockReach(b.Succs[1], true)[b]
+		inLoopBody := contTrue != contFalse
+		if contFalse && !contTrue {
+			op = negateOp(op)
+		}
 		if op == token.LSS && inLoopBody {
 			r.Instance("R03b", "parser.(*parser).run#loop-cond", pos, "ok", "continues while rightBinding < next.binding (strict)", true)
 		} else {
@@ -348,7 +354,7 @@ func c03Operators(c *Ctx, r *Result) {
 		return
 	}
 	r.Floor("R03c-providers", len(pt.Kind2Ctor), 45)
-	pkg := c.byName["interpreter"]
+	_ = c.byName["interpreter"]
 	var kinds []string
 	for k := range c03Ops {
 		kinds = append(kinds, k)
@@ -368,33 +374,12 @@ func c03Operators(c *Ctx, r *Result) {
 			r.Undecide("R03c: Eval of %s not found", rtT.Obj().Name())
 			continue
 		}
-		fd, _ := eval.Syntax().(*ast.FuncDecl)
-		if fd == nil {
-			r.Undecide("R03c: syntax of %s not available", c.FuncKey(eval))
-			continue
-		}
-		// calls rt.<helper>(func literal, ...)
+		// the typed helpers applied by this Eval (through intermediate functions), with the
+		// normalised expression of the function each is handed
 		got := map[string][]string{}
-		ast.Inspect(fd, func(nd ast.Node) bool {
-			call, ok := nd.(*ast.CallExpr)
-			if !ok || len(call.Args) == 0 {
-				return true
-			}
-			sel, ok := call.Fun.(*ast.SelectorExpr)
-			if !ok {
-				return true
-			}
-			lit, ok := call.Args[0].(*ast.FuncLit)
-			if !ok {
-				return true
-			}
-			ex, ok := closureExpr(pkg.TypesInfo, lit)
-			if !ok {
-				ex = "<unrecognised closure>"
-			}
-			got[sel.Sel.Name] = append(got[sel.Sel.Name], ex)
-			return true
-		})
+		for _, app := range c03Applications(c, eval) {
+			got[app.helper] = append(got[app.helper], c03ExprOf(app))
+		}
 		for _, want := range c03Ops[kind] {
 			n++
 			s2 := site + ":" + want.helper
